@@ -39,6 +39,18 @@ DevVariants == { [services |-> <<>>, devices |-> <<>>],
                  [services |-> <<Svc("S")>>, devices |-> <<Dev(<<"S", "T">>)>>],
                  [services |-> <<>>, devices |-> <<Dev(<<>>)>>] }
 
+(* messages at the 64 bit limit whose last bits are an enum: a single enumerator 0 (one bit), two enumerators, a 2 bit enum, declared
+   lowest-first and highest-first; the enum also inside an array *)
+EnumAt(w, items, arr) ==
+    [structs |-> <<Sx("A", <<Fd("x", 0, w), [name |-> "y", id |-> 1,
+                                           type |-> IF arr THEN [k |-> "arr", t |-> [k |-> "enum", name |-> "E"], n |-> 2]
+                                                           ELSE [k |-> "enum", name |-> "E"]]>>)>>,
+     enums |-> <<[name |-> "E", items |-> items]>>, impls |-> <<Im("A", "can", "A", 1)>>, services |-> <<>>, devices |-> <<>>]
+EnumSizeTrees == { EnumAt(w, items, arr) : w \in {61, 62, 63, 64}, arr \in BOOLEAN,
+                     items \in { <<EI("X", 0)>>, <<EI("X", 0), EI("Y", 1)>>, <<EI("X", 0), EI("Y", 3)>>, <<EI("Y", 3), EI("X", 0)>>,
+                                 <<EI("X", 2), EI("Y", 3)>> } }
+
 Trees == { [structs |-> sl, enums |-> el, impls |-> il, services |-> dv.services, devices |-> dv.devices] :
               sl \in StructLists, el \in EnumLists, il \in ImplLists, dv \in DevVariants }
+         \cup EnumSizeTrees
 =============================================================================
